@@ -333,7 +333,7 @@ func (c *Ctx) dpRules(r *Report, lv *ssa.Function) {
 			// border stores: dists[x][0] = x  and dists[0][y] = y
 			if k, isC := constInt(col); isC && k == 0 {
 				lp := innermost(c.loopsDeep(lv), b)
-				okB := lp != nil && c.resolve(st.Val) == c.resolve(row) && strings.HasPrefix(c.term(lp.Header.Instrs[len(lp.Header.Instrs)-1].(*ssa.If).Cond), "((phi{(phi↺ + 1) | -1} + 1) < len(makeslice[[][]int]")
+				okB := lp != nil && c.resolve(st.Val) == c.resolve(row) && strings.HasPrefix(c.term(lp.Header.Instrs[len(lp.Header.Instrs)-1].(*ssa.If).Cond), "(phi{(phi↺ + 1) | 0} < len(makeslice[[][]int]")
 				r.Check(okB, "DP", ln, "column 0 initialised over all rows", c.ipos(st), "dists[i][0] = i for every row of the table", "column-0 initialisation does not cover the whole table")
 				borderCol = true
 				continue
